@@ -1,6 +1,10 @@
 package ed25519
 
-import "crypto"
+import (
+	"crypto"
+
+	"github.com/oasisprotocol/ed25519/internal/modm"
+)
 
 // C04 (batch): an entry whose scalar half is >= L reports false in default and ZIP-215 mode, at any position
 // of a chunk and in the single-verification remainder.
@@ -143,6 +147,12 @@ func vh_C13_batch_malformed_entries() {
 // the entry being examined, in every chunk (n = 68: second chunk with the first one replicated), exactly as the
 // single verifier does; with ZIP-215 it does not.
 func vh_C09_batch_small_order_gate() {
+	if modm.BitsPerLimb != 56 {
+		// the skeleton is cut at the ge25519 / modm API and does not depend on the limb layout; its point
+		// handles are 64-bit cells, so it is run on the 64-bit layouts only
+		vNote("layout-independent skeleton harness: not run on the 32-bit limb layout")
+		return
+	}
 	n := 5
 	vReplicate = 0
 	if vCase(0, 1) == 1 {
